@@ -637,6 +637,78 @@ def run(ctx):
     cases = random_cases(np.random.default_rng(ctx.seed), 2, 2, 2)
     for cfg, xs in (cases[0], cases[2]):
         ctx.sample({"cfg": cfg, "stream_head": xs[:12], "len": len(xs)})
+    from menelaus.change_detection import CUSUM, PageHinkley
+    manual_reset_part(ctx, CUSUM, PageHinkley)
+
+
+def manual_reset_part(ctx, CUSUM, PageHinkley):
+    """A manual reset() between updates (documented public API; StreamingEnsemble.reset() does it to every member): the epoch
+    restarts -- counter, drift state, cumulative sums / Page-Hinkley statistics -- and nothing else changes; in particular CUSUM
+    keeps the target / sd_hat it was given or has estimated (Model/Cusum.lean `reset`, Model/PageHinkley.lean `reset`)."""
+    rng = np.random.default_rng([ctx.seed, 404])
+    lines, cases = [], []
+    for k in range(120 if ctx.quick else 1200):
+        det = "cusum" if k % 3 else "ph"
+        cfg = dict((cusum_cfgs(rng, 24) if det == "cusum" else ph_cfgs(rng, 8))[k % (24 if det == "cusum" else 8)])
+        cfg["det"], cfg["form"] = det, 0
+        xs = gen_stream(rng, max(cfg["burn_in"], 2), int(rng.integers(3, 7)))
+        items = list(xs)
+        for _ in range(int(rng.integers(1, 4))):
+            items.insert(int(rng.integers(1, len(items))), "R")
+        if det == "cusum":
+            d = CUSUM(target=cfg["target"], sd_hat=cfg["sd"], burn_in=cfg["burn_in"], delta=cfg["delta"], threshold=cfg["threshold"], direction=cfg["direction"])
+        else:
+            d = PageHinkley(delta=cfg["delta"], threshold=cfg["threshold"], burn_in=cfg["burn_in"], direction=cfg["direction"])
+        tr = []
+        for it in items:
+            try:
+                d.reset() if isinstance(it, str) else d.update(it)
+                out = "ok"
+            except Exception as ex:
+                out = exc_tag(ex)
+            t = sd = None
+            if det == "cusum":
+                t = None if d.target is None else fnum(d.target)
+                sd = None if d.sd_hat is None else fnum(d.sd_hat)
+            st = d.drift_state
+            tr.append((out, core.dstr(st) if st in (None, "warning", "drift") else "X", int(d.total_samples), int(d.samples_since_reset), t, sd))
+            if out != "ok":
+                break
+        head = lines_for(cfg, [])[0]
+        start = len(lines) + 1
+        lines += [head] + ["reset" if isinstance(it, str) else "u " + core.f2b(it) for it in items[:len(tr)]]
+        cases.append((det, cfg, items, tr, start))
+    out = core.run_driver(lines)
+    for det, cfg, items, tr, start in cases:
+        ctx.traces += 1
+        ctx.count("manual-reset:" + det)
+        nd = sum(1 for t in tr if t[1] == "D")
+        ctx.case(("manual-reset", det, json.dumps(cfg, sort_keys=True, default=str), len(items)), nd > 0)
+        for i, t in enumerate(tr):
+            p = out[start + i].split()
+            if det == "cusum":
+                m = (p[0], p[1], int(p[2]), int(p[3]), None if p[4] == "_" else core.b2f(p[4]), None if p[5] == "_" else core.b2f(p[5]))
+                same = (t[0], t[2], t[3]) == (m[0], m[2], m[3]) and optclose(t[4], m[4]) and optclose(t[5], m[5])
+                dec_same = t[1] == m[1]
+                marg = min(margin(core.b2f(p[6]), cfg["threshold"]), margin(core.b2f(p[7]), cfg["threshold"]))
+            else:
+                m = ("ok", p[0], int(p[1]), int(p[2]), None, None)
+                same = (t[0], t[2], t[3]) == (m[0], m[2], m[3])
+                dec_same = t[1] == m[1]
+                marg = margin(core.b2f(p[5]), core.b2f(p[6])) if len(p) == 11 else 1.0
+            if same and dec_same:
+                if t[0] != "ok":
+                    break
+                continue
+            if same and not dec_same and marg < 1e-9:
+                ctx.thin += 1
+                break
+            ctx.fail(signature={"class": "c04-manual-reset", "detector": det},
+                     what=f"{det}: after a manual reset() between updates the detector differs from its specification at item {i} "
+                          "(a reset restarts the epoch and touches nothing else)",
+                     detector=det, config={k: v for k, v in cfg.items()}, items=[x if isinstance(x, str) else float(x) for x in items[:i + 1]],
+                     impl=list(t), model=list(m))
+            break
 
 
 def search(ctx, mismatches):
